@@ -103,7 +103,9 @@ package vecengine
 //@ spec hv(h HighestBeforeI) []byte = deref(unbox(h, "*vecfc.HighestBeforeSeq"))
 //@
 //@ // branch lists: every listed branch exists and belongs to the creator it is listed under
-//@ spec bilists(bi *BranchesInfo, n int) bool = forall(c, 0, n, forall(j, 0, len(bi.BranchIDByCreators[c]), bi.BranchIDByCreators[c][j] < len(bi.BranchIDCreatorIdxs) && bi.BranchIDCreatorIdxs[bi.BranchIDByCreators[c][j]] == c)) && forall(c, 0, n, len(bi.BranchIDByCreators[c]) >= 1 && bi.BranchIDByCreators[c][0] == c)
+//@ spec bilistsA(bi *BranchesInfo, n int) bool = forall(c, 0, n, forall(j, 0, len(bi.BranchIDByCreators[c]), bi.BranchIDByCreators[c][j] < len(bi.BranchIDCreatorIdxs) && bi.BranchIDCreatorIdxs[bi.BranchIDByCreators[c][j]] == c))
+//@ spec bilistsB(bi *BranchesInfo, n int) bool = forall(c, 0, n, len(bi.BranchIDByCreators[c]) >= 1 && bi.BranchIDByCreators[c][0] == c)
+//@ spec bilists(bi *BranchesInfo, n int) bool = bilistsA(bi, n) && bilistsB(bi, n)
 //@
 //@ // bisep: the slices of the branches info do not share storage (each was allocated on its own)
 //@ spec bisep(bi *BranchesInfo, n int) bool = (arrof(bi.BranchIDLastSeq) != arrof(bi.BranchIDCreatorIdxs) || arrof(bi.BranchIDLastSeq) == 0) &&
@@ -116,11 +118,13 @@ package vecengine
 //@   requires vi != nil && valid(vi.validators) && biwf(vi.bi, len(vi.validators.values)) && bilists(vi.bi, len(vi.validators.values)) && isHB(before) && branchID < len(vi.bi.BranchIDCreatorIdxs)
 //@   modifies deref(unbox(before, "*vecfc.HighestBeforeSeq")), deref(unbox(before, "*vecfc.HighestBeforeSeq"))[*]
 //@   ensures  [wf] isHB(before)
+//@   ensures  [arr] arrof(hv(before)) == old(arrof(hv(before))) || arrfresh(hv(before), old(_alloc))
 //@   ensures  [marked] forall(j, 0, len(vi.bi.BranchIDByCreators[vi.bi.BranchIDCreatorIdxs[branchID]]), hbFork(hv(before), vi.bi.BranchIDByCreators[vi.bi.BranchIDCreatorIdxs[branchID]][j]))
 //@   ensures  [others] forall(br int, br >= 0 && forall(j, 0, len(vi.bi.BranchIDByCreators[vi.bi.BranchIDCreatorIdxs[branchID]]), vi.bi.BranchIDByCreators[vi.bi.BranchIDCreatorIdxs[branchID]][j] != br) ==> hbSeq(hv(before), br) == old(hbSeq(hv(before), br)) && hbMin(hv(before), br) == old(hbMin(hv(before), br)))
 //@   loop 1 modifies deref(unbox(before, "*vecfc.HighestBeforeSeq")), deref(unbox(before, "*vecfc.HighestBeforeSeq"))[*]
 //@   loop 1 invariant arrof(hv(before)) == arrof(atentry(hv(before))) || arrfresh(hv(before), _loopalloc)
 //@   loop 1 invariant 0 <= _k && _k <= len(_range) && isHB(before)
+//@   loop 1 invariant arrof(hv(before)) == old(arrof(hv(before))) || arrfresh(hv(before), old(_alloc))
 //@   loop 1 invariant forall(j, 0, _k, hbFork(hv(before), _range[j]))
 //@   loop 1 invariant forall(br int, br >= 0 && forall(j, 0, _k, _range[j] != br) ==> hbSeq(hv(before), br) == old(hbSeq(hv(before), br)) && hbMin(hv(before), br) == old(hbMin(hv(before), br)))
 //@
@@ -214,31 +218,43 @@ package vecengine
 //@   requires vi.callback.NewHighestBefore != nil && vi.callback.NewLowestAfter != nil && vi.callback.GetHighestBefore != nil && vi.callback.GetLowestAfter != nil && vi.callback.SetHighestBefore != nil && vi.callback.SetLowestAfter != nil && vi.crit != nil && vi.getEvent != nil
 //@   requires e.SelfParent() != nil ==> gBranchOf[deref(e.SelfParent())] < len(vi.bi.BranchIDCreatorIdxs)
 //@   requires e.Seq() >= 1 && e.Seq() <= 2147483646
-//@   requires [stored] forall(i, 0, len(e.Parents()), gHBI[e.Parents()[i]] != nil ==> isHB(gHBI[e.Parents()[i]]) && allocd(unbox(gHBI[e.Parents()[i]], "*vecfc.HighestBeforeSeq")) && allocd(hv(gHBI[e.Parents()[i]])))
+//@   requires [stored] forall(x hash.Event, gHBI[x] != nil ==> isHB(gHBI[x]) && allocd(unbox(gHBI[x], "*vecfc.HighestBeforeSeq")) && allocd(hv(gHBI[x])))
 //@   modifies vi.bi.BranchIDLastSeq, vi.bi.BranchIDLastSeq[*], vi.bi.BranchIDCreatorIdxs, vi.bi.BranchIDCreatorIdxs[*], vi.bi.BranchIDByCreators[*], allelems(idx.Validator), allelems(idx.Event), gHBI[*], gLAI[*], gBranchOf[*], allelems(byte), allcells("vecfc.LowestAfterSeq")
 //@   at call vecengine.Engine).DfsSubgraph[1] requires [self] hbFork(hv(myVecs.before), meBranchID) || hbSeq(hv(myVecs.before), meBranchID) >= e.Seq()
 //@   ensures  [stored] result1 == nil ==> gHBI[e.ID()] == result0.before && gLAI[e.ID()] == result0.after && gBranchOf[e.ID()] < len(vi.bi.BranchIDCreatorIdxs)
 //@   ensures  [missing] result1 != nil ==> gHBI[e.ID()] == old(gHBI[e.ID()]) && gLAI[e.ID()] == old(gLAI[e.ID()])
 //@   loop 1 modifies parentsVecs[*], parentsBranchIDs[*]
 //@   loop 1 invariant 0 <= _k && _k <= len(e.Parents()) && len(parentsVecs) == len(e.Parents()) && len(parentsBranchIDs) == len(e.Parents()) && arrfresh(parentsVecs, old(_alloc)) && arrfresh(parentsBranchIDs, old(_alloc)) && arrof(parentsVecs) != arrof(parentsBranchIDs)
-//@   loop 1 invariant forall(i, 0, _k, parentsVecs[i] == gHBI[e.Parents()[i]] && parentsVecs[i] != nil)
+//@   loop 1 invariant forall(i, 0, _k, parentsVecs[i] != nil && isHB(parentsVecs[i]) && !fresh(unbox(parentsVecs[i], "*vecfc.HighestBeforeSeq")) && !arrfresh(hv(parentsVecs[i]), old(_alloc)))
 //@   loop 1 invariant [hb] isHB(myVecs.before) && arrfresh(hv(myVecs.before), old(_alloc)) && fresh(unbox(myVecs.before, "*vecfc.HighestBeforeSeq"))
 //@   loop 1 invariant [biwf] biwf(vi.bi, len(vi.validators.values))
-//@   loop 1 invariant [bilists] bilists(vi.bi, len(vi.validators.values))
+//@   loop 1 invariant [bilistsA] bilistsA(vi.bi, len(vi.validators.values))
+//@   loop 1 invariant [bilistsB] bilistsB(vi.bi, len(vi.validators.values))
+//@   loop 1 hint assert _k == iterold(_k) + 1 && parentsVecs[_k - 1] != nil
+//@   loop 1 hint assert _k == iterold(_k) + 1 && forall(i, 0, _k - 1, parentsVecs[i] == iterold(parentsVecs[i]))
+//@   loop 1 hint assert vi.bi.BranchIDCreatorIdxs == iterold(vi.bi.BranchIDCreatorIdxs) && forall(x, 0, len(vi.bi.BranchIDCreatorIdxs), vi.bi.BranchIDCreatorIdxs[x] == iterold(vi.bi.BranchIDCreatorIdxs[x])) && forall(c, 0, len(vi.validators.values), vi.bi.BranchIDByCreators[c] == iterold(vi.bi.BranchIDByCreators[c]) && forall(j, 0, len(vi.bi.BranchIDByCreators[c]), vi.bi.BranchIDByCreators[c][j] == iterold(vi.bi.BranchIDByCreators[c][j])))
+//@   loop 1 hint assert _k == iterold(_k) + 1 && rowof(vi.bi.BranchIDCreatorIdxs) == iterold(rowof(vi.bi.BranchIDCreatorIdxs)) && rowof(vi.bi.BranchIDByCreators) == iterold(rowof(vi.bi.BranchIDByCreators)) && forall(c, 0, len(vi.validators.values), rowof(vi.bi.BranchIDByCreators[c]) == iterold(rowof(vi.bi.BranchIDByCreators[c])))
 //@   loop 1 invariant [me] meBranchID < len(vi.bi.BranchIDCreatorIdxs)
+//@   loop 1 invariant [disj] arrof(vi.bi.BranchIDCreatorIdxs) != arrof(parentsBranchIDs) && !arrfresh(vi.bi.BranchIDCreatorIdxs, _loopalloc) && !arrfresh(vi.bi.BranchIDByCreators, _loopalloc) && forall(c, 0, len(vi.validators.values), arrof(vi.bi.BranchIDByCreators[c]) != arrof(parentsBranchIDs) && !arrfresh(vi.bi.BranchIDByCreators[c], _loopalloc))
 //@   loop 2 modifies deref(unbox(myVecs.before, "*vecfc.HighestBeforeSeq")), deref(unbox(myVecs.before, "*vecfc.HighestBeforeSeq"))[*]
 //@   loop 2 invariant arrof(hv(myVecs.before)) == arrof(atentry(hv(myVecs.before))) || arrfresh(hv(myVecs.before), _loopalloc)
 //@   loop 2 invariant 0 <= _k && _k <= len(parentsVecs) && isHB(myVecs.before) && arrfresh(hv(myVecs.before), old(_alloc)) && fresh(unbox(myVecs.before, "*vecfc.HighestBeforeSeq"))
 //@   loop 2 invariant [self] hbFork(hv(myVecs.before), meBranchID) || hbSeq(hv(myVecs.before), meBranchID) >= e.Seq()
-//@   loop 2 invariant forall(i, 0, len(parentsVecs), parentsVecs[i] != nil && isHB(parentsVecs[i]) && unbox(parentsVecs[i], "*vecfc.HighestBeforeSeq") != unbox(myVecs.before, "*vecfc.HighestBeforeSeq") && arrof(hv(parentsVecs[i])) != arrof(hv(myVecs.before)) && !arrfresh(hv(parentsVecs[i]), old(_alloc)))
+//@   loop 2 invariant forall(i, 0, len(parentsVecs), parentsVecs[i] != nil && isHB(parentsVecs[i]) && !fresh(unbox(parentsVecs[i], "*vecfc.HighestBeforeSeq")) && !arrfresh(hv(parentsVecs[i]), old(_alloc)))
 //@   loop 3 modifies deref(unbox(myVecs.before, "*vecfc.HighestBeforeSeq")), deref(unbox(myVecs.before, "*vecfc.HighestBeforeSeq"))[*]
 //@   loop 3 invariant arrof(hv(myVecs.before)) == arrof(atentry(hv(myVecs.before))) || arrfresh(hv(myVecs.before), _loopalloc)
 //@   loop 3 invariant 0 <= n && n <= len(vi.validators.values) && isHB(myVecs.before) && arrfresh(hv(myVecs.before), old(_alloc)) && fresh(unbox(myVecs.before, "*vecfc.HighestBeforeSeq"))
+//@   loop 3 invariant [biwf] biwf(vi.bi, len(vi.validators.values))
+//@   loop 3 invariant [bilistsA] bilistsA(vi.bi, len(vi.validators.values))
+//@   loop 3 invariant [bilistsB] bilistsB(vi.bi, len(vi.validators.values))
 //@   loop 3 invariant [self] hbFork(hv(myVecs.before), meBranchID) || hbSeq(hv(myVecs.before), meBranchID) >= e.Seq()
 //@   loop 4 invariant 0 <= _k && _k <= len(_range) && isHB(myVecs.before)
 //@   loop 5 modifies deref(unbox(myVecs.before, "*vecfc.HighestBeforeSeq")), deref(unbox(myVecs.before, "*vecfc.HighestBeforeSeq"))[*]
 //@   loop 5 invariant arrof(hv(myVecs.before)) == arrof(atentry(hv(myVecs.before))) || arrfresh(hv(myVecs.before), _loopalloc)
 //@   loop 5 invariant 0 <= n && n <= len(vi.validators.values) && isHB(myVecs.before) && arrfresh(hv(myVecs.before), old(_alloc)) && fresh(unbox(myVecs.before, "*vecfc.HighestBeforeSeq"))
+//@   loop 5 invariant [biwf] biwf(vi.bi, len(vi.validators.values))
+//@   loop 5 invariant [bilistsA] bilistsA(vi.bi, len(vi.validators.values))
+//@   loop 5 invariant [bilistsB] bilistsB(vi.bi, len(vi.validators.values))
 //@   loop 5 invariant [self] hbFork(hv(myVecs.before), meBranchID) || hbSeq(hv(myVecs.before), meBranchID) >= e.Seq()
 //@   loop 6 invariant 0 <= _k && _k <= len(_range) && isHB(myVecs.before)
 //@   loop 7 invariant 0 <= _k && _k <= len(_range) && isHB(myVecs.before)
